@@ -15,6 +15,8 @@ OPEN_TYPE_oer_get(const asn_codec_ctx_t *opt_codec_ctx,
     void *memb_ptr;   /* Pointer to the member */
     void **memb_ptr2; /* Pointer to that pointer */
     void *inner_value;
+    void **inner_value2; /* What the decoder is given */
+    int inner_is_pointer; /* The alternative is kept by reference */
     asn_dec_rval_t rv;
     size_t ot_ret;
 
@@ -48,12 +50,21 @@ OPEN_TYPE_oer_get(const asn_codec_ctx_t *opt_codec_ctx,
         }
     }
 
-    inner_value =
-        (char *)*memb_ptr2
-        + elm->type->elements[selected.presence_index - 1].memb_offset;
+    /* An alternative may be kept by reference (a recursive type, for one) */
+    if(elm->type->elements[selected.presence_index - 1].flags & ATF_POINTER) {
+        inner_value2 = (void **)((char *)*memb_ptr2
+            + elm->type->elements[selected.presence_index - 1].memb_offset);
+        inner_is_pointer = 1;
+    } else {
+        inner_value = (char *)*memb_ptr2
+            + elm->type->elements[selected.presence_index - 1].memb_offset;
+        inner_value2 = &inner_value;
+        inner_is_pointer = 0;
+    }
 
     ot_ret = oer_open_type_get(opt_codec_ctx, selected.type_descriptor, NULL,
-                               &inner_value, ptr, size);
+                               inner_value2, ptr, size);
+    inner_value = *inner_value2;
     switch(ot_ret) {
     default:
         if(CHOICE_variant_set_presence(elm->type, *memb_ptr2,
@@ -83,8 +94,12 @@ OPEN_TYPE_oer_get(const asn_codec_ctx_t *opt_codec_ctx,
             ASN_STRUCT_FREE(*selected.type_descriptor, inner_value);
             *memb_ptr2 = NULL;
         } else {
-            ASN_STRUCT_FREE_CONTENTS_ONLY(*selected.type_descriptor,
-                                          inner_value);
+            if(inner_is_pointer) {
+                ASN_STRUCT_FREE(*selected.type_descriptor, inner_value);
+            } else {
+                ASN_STRUCT_FREE_CONTENTS_ONLY(*selected.type_descriptor,
+                                              inner_value);
+            }
             memset(*memb_ptr2, 0, specs->struct_size);
         }
     }
